@@ -13,7 +13,8 @@ QUICK = r'''
 Presents1(n) == {AllPresent(n)}
 MCInit == Init /\ ( InitCfg({"odo", "lm"}, {2}, EstTypes, OffTypes, SquareShapes \cup OddShapes, Presents1, {"fwd", "rev"})
                   \/ InitCfg({"odo", "lm"}, {2}, EstTypes, {"none", "SE2", "SE3", "R3"}, {<<2,2>>, <<3,3>>, <<6,6>>}, AnyPresent, {"fwd"})
-                  \/ InitCfg({"odo", "lm"}, {1, 3}, EstTypes, {"none", "SE2", "SE3"}, {<<2,2>>, <<3,3>>, <<6,6>>}, Presents1, {"rev"}) )
+                  \/ InitCfg({"odo", "lm"}, {1, 3}, EstTypes, {"none", "SE2", "SE3"}, {<<2,2>>, <<3,3>>, <<6,6>>}, Presents1, {"rev"})
+                  \/ InitCfg({"odo", "lm"}, {3}, Kinds, {"none", "SE2", "SE3"}, {<<2,2>>, <<3,3>>, <<6,6>>}, OneAbsent, {"fwd"}) )
 MCSpec == MCInit /\ [][MCNext]_allvars
 '''
 THOROUGH = r'''
@@ -92,15 +93,18 @@ def _one(run, c, expect_ok, st):
         vx = Vertex(v['id'], p)
         verts_by_id[v['id']] = vx
         vlist.append(vx)
-    ed = st['edges'][0]
+    def mk(ed):
+        vids_ = list(ed['vids'])
+        inf_ = info_of(ed['info'])
+        est_ = value_of(ed['est'], 0.0)
+        if ed['cls'] == 'odo':
+            return EdgeOdometry(vids_, inf_, est_)
+        return EdgeLandmark(vids_, inf_, est_, value_of(ed['off'], 0.25), offset_id=0)
+    elist = [mk(ed) for ed in st['edges']]
+    e = elist[-1]                       # the edge under test (a consistent companion may be listed before it)
+    ed = st['edges'][-1]
     vids = list(ed['vids'])
-    inf = info_of(c['info'])
-    est = value_of(c['est'], 0.0)
-    if c['cls'] == 'odo':
-        e = EdgeOdometry(vids, inf, est)
-    else:
-        e = EdgeLandmark(vids, inf, est, value_of(c['off'], 0.25), offset_id=0)
-    key = dict(cls=c['cls'], nv=nv, kinds=tuple(c['kinds']), est=c['est'], off=c['off'], info=tuple(c['info']), present=tuple(c['present']), ids=c['ids'], dup=c['dup'])
+    key = dict(cls=c['cls'], nv=nv, kinds=tuple(c['kinds']), est=c['est'], off=c['off'], info=tuple(c['info']), present=tuple(c['present']), ids=c['ids'], dup=c['dup'], companion=c['comp'])
     # History dimension: every other configuration re-uses an edge object that is ALREADY bound to the vertex objects of an earlier
     # graph (same ids, different objects - also for ids the new vertex list lacks).  Construction must re-bind it to the listed vertices.
     prebound = run.replayed % 2 == 1
@@ -111,18 +115,18 @@ def _one(run, c, expect_ok, st):
         run.notes['prebound_edge_histories'] = run.notes.get('prebound_edge_histories', 0) + 1
     raised = None
     try:
-        g = Graph([e], vlist)
+        g = Graph(elist, vlist)
     except Exception as ex:  # noqa
         raised = ex
     run.replayed += 1
-    run.count(key=(c['cls'], nv, tuple(c['kinds']), c['est'], c['off'], tuple(c['info']), tuple(c['present']), c['perm'], c['ids'], c['dup']))
+    run.count(key=(c['cls'], nv, tuple(c['kinds']), c['est'], c['off'], tuple(c['info']), tuple(c['present']), c['perm'], c['ids'], c['dup'], c['comp']))
     if expect_ok and raised is not None:
         run.violation(dict(key, verdict='wrong-reject'), 'consistent edge rejected with %r | config %r' % (raised, c), dict(config=c))
     elif not expect_ok and raised is None:
         run.violation(dict(key, verdict='wrong-accept'), 'inconsistent edge silently accepted | config %r' % (c,), dict(config=c))
     elif expect_ok:
         # bound by id: e.vertices[j] IS the listed vertex whose id is vertex_ids[j]
-        bind = st['obs']['bind'][0]
+        bind = st['obs']['bind'][-1]
         for j, vid in enumerate(vids):
             if e.vertices[j] is not vlist[bind[j] - 1] or e.vertices[j].id != vid:
                 run.violation(dict(key, verdict='wrong-binding'), 'edge position %d bound to the wrong vertex | config %r' % (j, c), dict(config=c))
